@@ -35,6 +35,7 @@ def svdk_clauses(X, U, s, V, k):
 class DecomposerStub:
     """call-site stand-in for xeofs.linalg.decomposer.Decomposer generated from SVD_k"""
     calls = []
+    positive = False      # contracts that divide by the singular values add the precondition s > 0
 
     def __init__(self, **kw):
         self.kw = kw
@@ -64,7 +65,7 @@ class DecomposerStub:
             assume(k.z <= p.z)
         pr = () if X.cplx else ("real",)
         U = tm.sym(f"U.{tag}", n, k, pr)
-        s = tm.sym(f"s.{tag}", k, k, ("diag", "real", "herm"))
+        s = tm.sym(f"s.{tag}", k, k, ("diag", "real", "herm", "nonneg") + (("pos", "inv") if self.positive else ()))
         V = tm.sym(f"V.{tag}", p, k, pr)
         for name, (l, r) in svdk_clauses(Xt.term, U, s, V, k).items():
             c.hyps.append((l, r, "SVD_k:" + name))
